@@ -31,6 +31,12 @@ type IAMCache struct {
 	service  IAMService
 	iamcache *icache
 	cancel   context.CancelFunc
+	// mu orders account changes against cache fills: a change (service call
+	// plus cache update) holds it exclusively, a lookup that misses the
+	// cache holds it shared while it asks the service and stores the answer.
+	// Without it a fill could store an answer obtained before a change that
+	// was acknowledged in the meantime, and serve it until it expires.
+	mu sync.RWMutex
 }
 
 var _ IAMService = &IAMCache{}
@@ -134,6 +140,9 @@ func NewCache(service IAMService, expireTime, cleanupInterval time.Duration) *IA
 
 // CreateAccount send create to IAM service and creates an account cache entry
 func (c *IAMCache) CreateAccount(account Account) error {
+	c.mu.Lock()
+	defer c.mu.Unlock()
+
 	err := c.service.CreateAccount(account)
 	if err != nil {
 		return err
@@ -163,6 +172,9 @@ func (c *IAMCache) GetUserAccount(access string) (Account, error) {
 		return acct, nil
 	}
 
+	c.mu.RLock()
+	defer c.mu.RUnlock()
+
 	a, err := c.service.GetUserAccount(access)
 	if err != nil {
 		return Account{}, err
@@ -174,6 +186,9 @@ func (c *IAMCache) GetUserAccount(access string) (Account, error) {
 
 // DeleteUserAccount deletes account from IAM service and cache
 func (c *IAMCache) DeleteUserAccount(access string) error {
+	c.mu.Lock()
+	defer c.mu.Unlock()
+
 	err := c.service.DeleteUserAccount(access)
 	if err != nil {
 		return err
@@ -184,6 +199,9 @@ func (c *IAMCache) DeleteUserAccount(access string) error {
 }
 
 func (c *IAMCache) UpdateUserAccount(access string, props MutableProps) error {
+	c.mu.Lock()
+	defer c.mu.Unlock()
+
 	err := c.service.UpdateUserAccount(access, props)
 	if err != nil {
 		return err
